@@ -94,9 +94,23 @@ def _make_wrapper(run, func, label, hook, pre=None):
     return wrapper
 
 
-def wrap_attr(run, owner, name, hook, pre=None, label=None):
+def wrap_attr(run, owner, name, hook, pre=None, label=None, overrides=False):
     """Replace owner.name by a monitored wrapper (handles static/class
-    methods).  Returns the original callable."""
+    methods).  Returns the original callable.  With overrides=True every
+    subclass of `owner` that defines its own `name` is wrapped as well, so that
+    a change which moves the behaviour into a subclass override (seeded changes
+    C02-r2-2 / C12-r2-2: Hyperplane.reflection_across) stays under the contract."""
+    if overrides and isinstance(owner, type):
+        seen = set()
+        stack = list(owner.__subclasses__())
+        while stack:
+            sub = stack.pop()
+            if sub in seen:
+                continue
+            seen.add(sub)
+            stack.extend(sub.__subclasses__())
+            if name in sub.__dict__:
+                wrap_attr(run, sub, name, hook, pre=pre, label=label)
     raw = owner.__dict__[name] if name in getattr(owner, "__dict__", {}) \
         else getattr(owner, name)
     label = label or "%s.%s" % (getattr(owner, "__name__", str(owner)).split(".")[-1], name)
